@@ -1333,6 +1333,22 @@ func (r *vfRun) reservePre() vfMeta {
 	return m
 }
 
+// rowSnapshot: the K identity/shift of every location in every layer (what a refused operation must not touch)
+func (r *vfRun) rowSnapshot() string {
+	var sb strings.Builder
+	for _, l := range r.layers {
+		if r.cache.keys[l] == nil {
+			continue
+		}
+		for loc := range r.cache.cells {
+			id, sh, _ := r.rowK(l, loc)
+			fmt.Fprintf(&sb, "%d.%d,", id, sh)
+		}
+		sb.WriteByte(';')
+	}
+	return sb.String()
+}
+
 func (r *vfRun) metaSame(before vfMeta) bool {
 	c := r.cache
 	same := len(before.cells) == len(c.cells) && len(before.ranges) == len(c.cellRanges)
@@ -1394,11 +1410,16 @@ func (r *vfRun) step(opi int, op vfOp) {
 		x = "C"
 	case 'R':
 		before := r.reservePre()
+		rowsBefore := r.rowSnapshot()
 		err := c.Remove(op.a, int32(op.b), int32(op.c))
 		x = "R:" + vfErrClass(err)
-		if err != nil && !r.shadow.unsound && !r.metaSame(before) {
-			// a removal that reports failure must not have removed or moved anything (F28)
-			r.l2("remove-error-mutated-state", fmt.Sprintf("op %d (%s): Remove returned %s after changing the cells of sequence %d", opi, op.String(), vfErrClass(err), op.a))
+		if err != nil && !r.shadow.unsound {
+			// a removal that reports failure must not have removed, moved or re-shifted anything (F28)
+			metaChanged, rowsChanged := !r.metaSame(before), rowsBefore != r.rowSnapshot()
+			if metaChanged || rowsChanged {
+				r.l2("remove-error-mutated-state", fmt.Sprintf("op %d (%s): Remove returned %s after changing the cells of sequence %d (cells_changed=%v rows_changed=%v)",
+					opi, op.String(), vfErrClass(err), op.a, metaChanged, rowsChanged))
+			}
 		}
 		r.acctRemove(opi, op, err)
 	case 'Q':
